@@ -41,12 +41,65 @@ def record_pure(K: int, m: int, n_steps: int, swing: float) -> dict:
     return {"K": K, "m": m, "init": {"l": l0, "r": r0}, "events": evs, "atoms": {"InitialPhasesAreZeroAndPi": bool(ok_l and ok_r and l0 == 0 and r0 == K // 2)}}
 
 
+def randomize_traces(ctx: Ctx):
+    """The real randomize_model on the real G1 nominal model (cheap: no simulation), for the default and several NON-default
+    range configurations: frame (only the four documented parameter groups change) and ranges, as atoms."""
+    import jax
+    import jax.random as jr
+    from lerax.env.unitree.g1 import G1Standing, randomize
+    env = G1Standing(push_enable=False, noise_level=0.0)
+    base = env.base_model
+    configs = [dict(friction_range=(0.4, 1.0), friction_loss_scale_range=(0.5, 2.0), armature_scale_range=(1.0, 1.05), mass_scale_range=(0.9, 1.1), torso_offset_range=(-1.0, 1.0)),
+               dict(friction_range=(0.6, 0.7), friction_loss_scale_range=(1.0, 1.5), armature_scale_range=(1.0, 1.02), mass_scale_range=(1.0, 1.0), torso_offset_range=(0.0, 0.5)),
+               dict(friction_range=(0.2, 0.3), friction_loss_scale_range=(0.25, 0.5), armature_scale_range=(1.1, 1.2), mass_scale_range=(0.5, 0.6), torso_offset_range=(2.0, 3.0)),
+               dict(friction_range=(1.0, 1.0), friction_loss_scale_range=(1.0, 1.0), armature_scale_range=(1.0, 1.0), mass_scale_range=(1.0, 1.0), torso_offset_range=(0.0, 0.0))]
+    traces, cases = [], []
+    e = 1e-5
+    for ci, cfg in enumerate(configs):
+        A = {k: True for k in ("OnlyTheDocumentedModelParametersAreRandomised", "ContactFrictionWithinRange", "FrictionLossScaleWithinRange",
+                               "ArmatureScaleWithinRange", "BodyMassScaleAndTorsoOffsetWithinRange")}
+        for k in range(ctx.pick(6, 32)):
+            m = randomize.randomize_model(base, key=jr.key(ctx.seed * 1000 + 17 * ci + k), nominal_friction_loss=env.nominal_friction_loss,
+                                          nominal_armature=env.nominal_armature, nominal_body_mass=env.nominal_body_mass,
+                                          torso_body_id=env.torso_body_id, **cfg)
+            changed = set()
+            for (path, a), (_, b) in zip(jax.tree_util.tree_flatten_with_path(m)[0], jax.tree_util.tree_flatten_with_path(base)[0]):
+                if hasattr(a, "shape") and not np.array_equal(np.asarray(a), np.asarray(b)):
+                    changed.add(jax.tree_util.keystr(path).strip(".").split(".")[-1].strip("[]'\""))
+            A["OnlyTheDocumentedModelParametersAreRandomised"] &= changed <= {"pair_friction", "dof_frictionloss", "dof_armature", "body_mass"}
+            pf, pf0 = np.asarray(m.pair_friction), np.asarray(base.pair_friction)
+            lo, hi = cfg["friction_range"]
+            A["ContactFrictionWithinRange"] &= bool(np.all(pf[0:2, 0:2] >= lo - e) and np.all(pf[0:2, 0:2] <= hi + e))
+            rest = pf.copy()
+            rest[0:2, 0:2] = pf0[0:2, 0:2]
+            A["OnlyTheDocumentedModelParametersAreRandomised"] &= bool(np.array_equal(rest, pf0))
+            fl, fl0 = np.asarray(m.dof_frictionloss), np.asarray(env.nominal_friction_loss)
+            lo, hi = cfg["friction_loss_scale_range"]
+            A["FrictionLossScaleWithinRange"] &= bool(np.all(fl[6:] >= fl0 * lo - e) and np.all(fl[6:] <= fl0 * hi + e))
+            A["OnlyTheDocumentedModelParametersAreRandomised"] &= bool(np.array_equal(fl[:6], np.asarray(base.dof_frictionloss)[:6]))
+            ar, ar0 = np.asarray(m.dof_armature), np.asarray(env.nominal_armature)
+            lo, hi = cfg["armature_scale_range"]
+            A["ArmatureScaleWithinRange"] &= bool(np.all(ar[6:] >= ar0 * lo - e) and np.all(ar[6:] <= ar0 * hi + e))
+            A["OnlyTheDocumentedModelParametersAreRandomised"] &= bool(np.array_equal(ar[:6], np.asarray(base.dof_armature)[:6]))
+            bm, bm0 = np.asarray(m.body_mass, dtype=np.float64), np.asarray(env.nominal_body_mass, dtype=np.float64)
+            lo, hi = cfg["mass_scale_range"]
+            tlo, thi = cfg["torso_offset_range"]
+            for b in range(len(bm0)):
+                l_, h_ = bm0[b] * lo, bm0[b] * hi
+                if b == env.torso_body_id:
+                    l_, h_ = l_ + tlo, h_ + thi
+                A["BodyMassScaleAndTorsoOffsetWithinRange"] &= bool(l_ - 1e-4 <= bm[b] <= h_ + 1e-4)
+        traces.append({"K": 8, "m": 1, "init": {"l": 0, "r": 4}, "events": [], "atoms": {k: bool(v) for k, v in A.items()}})
+        cases.append({"kind": "randomize", "config": ci})
+    return traces, cases
+
+
 def viol(v, traces, cases):
     out = []
     for i, (l, clauses) in sorted(v.rejected.items()):
         ev = traces[i]["events"][l - 1] if l >= 1 else traces[i]["atoms"]
         out.append(Violation("C20:" + cases[i]["kind"] + ":" + "+".join(clauses),
-                             f"{cases[i]['kind']} history K={traces[i]['K']} m={traces[i]['m']}: step {l} violates {clauses}: {ev}",
+                             f"{cases[i]} K={traces[i]['K']} m={traces[i]['m']}: step {l} violates {clauses}: {ev}",
                              "gait", cases[i]))
     return out
 
@@ -64,6 +117,9 @@ def run(ctx: Ctx) -> Report:
         for m in ms:
             cases.append({"kind": "pure", "K": K, "m": m, "n": ctx.pick(3 * K, 12 * K), "swing": ctx.rng.choice([0.15, 0.08, 0.25])})
     traces = [record_pure(c["K"], c["m"], c["n"], c["swing"]) for c in cases]
+    rt, rc = randomize_traces(ctx)
+    traces += rt
+    cases += rc
     if ctx.thorough:
         try:
             from . import g1
@@ -81,10 +137,11 @@ def run(ctx: Ctx) -> Report:
     rep.traces += len(traces)
     rep.evaluations += sum(len(t["events"]) for t in traces)
     rep.parts["C2S_gait"] = {"histories": len(traces), "steps": sum(len(t["events"]) for t in traces),
-                             "g1_episode_histories": sum(1 for c in cases if c["kind"] != "pure"),
+                             "randomize_model_configurations": sum(1 for c in cases if c["kind"] == "randomize"),
+                             "g1_episode_histories": sum(1 for c in cases if c["kind"] not in ("pure", "randomize")),
                              "accepted": len(v.accepted), "rejected": len(v.rejected)}
     rep.violations += viol(v, traces, cases)
-    good = sorted(v.accepted)[0]
+    good = [i for i in sorted(v.accepted) if cases[i]["kind"] == "pure"][0]
     m1 = copy.deepcopy(traces[good])
     m1["events"][3]["r"] = m1["events"][3]["l"]
     m2 = copy.deepcopy(traces[good])
@@ -104,6 +161,10 @@ def replay(ctx: Ctx, driver: str, case: dict) -> Report:
         tr = record_pure(case["K"], case["m"], case["n"], case["swing"])
         v = tracecheck.validate(ctx, SPEC, [tr], "replay")
         rep.violations += viol(v, [tr], [case])
+    elif case["kind"] == "randomize":
+        rt, rc = randomize_traces(ctx)
+        v = tracecheck.validate(ctx, SPEC, rt, "replay")
+        rep.violations += [x for x in viol(v, rt, rc) if x.case["config"] == case["config"]]
     else:
         from . import g1
         return g1.replay(ctx, case)
